@@ -102,6 +102,28 @@ template <class P> struct S {
         }
     }
 };
+// deterministic (independent of the seed): every three-angle sequence (12 axis orders x body/space) exactly at and next to its gimbal
+// lock (middle angle +-pi/2 for i-j-k, 0 / pi for i-j-i orders), 4x4 outer angles: angles -> matrix -> angles -> matrix must reproduce the matrix
+template <class P> static void locks() {
+    typedef Rotation_<P> Rot; typedef Vec<3,P> V3; CoordinateAxis ax[3] = {XAxis, YAxis, ZAxis};
+    const P tol = 200 * NTraits<P>::getEps(), loose = 20 * std::sqrt(NTraits<P>::getEps());
+    const double outer[4] = {-2.5, -0.4, 0.9, 2.2}, dl[6] = {0, 1e-16, -1e-16, 1e-9, -1e-6, 1e-4};
+    for (int bs = 0; bs < 2; ++bs) for (int i = 0; i < 3; ++i) for (int j = 0; j < 3; ++j) for (int k = 0; k < 3; ++k) {
+        if (i == j || j == k) continue;
+        BodyOrSpaceType ty = bs ? SpaceRotationSequence : BodyRotationSequence;
+        const double lk[2] = { i != k ? Pi/2 : 0.0, i != k ? -Pi/2 : Pi };
+        for (int l = 0; l < 2; ++l) for (int d = 0; d < 6; ++d) for (int o1 = 0; o1 < 4; ++o1) for (int o3 = 0; o3 < 4; ++o3) {
+            P a1 = P(outer[o1]), a2 = P(lk[l] + dl[d]), a3 = P(outer[o3]);
+            Rot R(ty, a1, ax[i], a2, ax[j], a3, ax[k]); V3 ang = R.convertThreeAxesRotationToThreeAngles(ty, ax[i], ax[j], ax[k]);
+            Rot back(ty, ang[0], ax[i], ang[1], ax[j], ang[2], ax[k]); ++evals;
+            P e = S<P>::diff(back, R);
+            // exactly at the lock the answer is a closed form of the entries (tight); next to it atan2 of tiny entries is ill conditioned
+            if (!(e <= (d == 0 ? tol : loose)))
+                S<P>::fail("three-angle:gimbal-lock-roundtrip", "%s %d%d%d angles %a %a %a -> %a %a %a: rebuilt matrix differs by %g", bs ? "space" : "body", i, j, k,
+                           (double)a1, (double)a2, (double)a3, (double)ang[0], (double)ang[1], (double)ang[2], (double)e);
+        }
+    }
+}
 // deterministic regression probe (independent of the seed) for the defect fixed by f480eb94: second vector at a small angle to the
 // first, above the fallback threshold; the result must be orthogonal to 200 eps of the precision
 template <class P> static void conditioning() {
@@ -117,5 +139,6 @@ int main(int argc, char** argv) {
     unsigned long seed = argc > 1 ? std::strtoul(argv[1], 0, 10) : 1; int n = argc > 2 ? std::atoi(argv[2]) : 500;
     rng.seed(seed); S<double>::run(n); rng.seed(seed + 1); S<float>::run(n);
     conditioning<double>(); conditioning<float>();
+    locks<double>(); locks<float>();
     std::printf("DONE %ld\n", evals); return 0;
 }
